@@ -21,7 +21,7 @@ def run_part(ctx):
             ctx.corr(hx, ["stream", "--n", "400"], cases_name="stream_cases%d.v" % k)
         ctx.seed -= 4000
     else:
-        ctx.corr(hx, ["stream", "--n", "120"], cases_name="stream_cases.v")
+        ctx.corr(hx, ["stream", "--n", "160"], cases_name="stream_cases.v")
     ctx.assumptions += [
         "c01stream: round trip is claimed for fault-free readers (any split of the reads); a reader error is reported as that error",
         "c01stream: time values inside [0, MaxInt64] ns, numbers inside the range of their kind, lengths that fit the length prefix (otherwise the write side reports an error, which is compared too)",
